@@ -10,14 +10,14 @@ cp -r $out /tmp/mut/${id}_OUT
 cd $wt && git reset -q && git checkout -q -- . && git clean -fdq -e OUT -e target
 # rebase the scratch worktree onto /repo's current HEAD (fix commits may have landed since)
 git checkout -q --detach $(git -C /repo rev-parse HEAD)
-demo_cmd=$(python3 -c "import json;print(json.load(open('$out/meta.json'))['demo_cmd'])" | sed -e "s#cd $wt *&& *##" -e 's/-j 4/-j 8/')
+demo_cmd=$(python3 -c "import json;print(json.load(open('$out/meta.json'))['demo_cmd'])" | sed -e "s#cd $wt *&& *##" -e 's/-j [0-9]*/-j 4/')
 echo "== $id demo_cmd: $demo_cmd"
 git apply $out/demo.diff || { echo "$id: demo.diff does not apply"; exit 2; }
 ( eval "$demo_cmd" ) > /tmp/mut/${id}_demo_clean.log 2>&1; r1=$?
 git apply $out/patch.diff || { echo "$id: patch.diff does not apply on current HEAD"; exit 2; }
 ( eval "$demo_cmd" ) > /tmp/mut/${id}_demo_patched.log 2>&1; r2=$?
 git apply -R $out/demo.diff
-cargo test --workspace --no-fail-fast --offline -j 8 > /tmp/mut/${id}_suite.log 2>&1; r3=$?
+cargo test --workspace --no-fail-fast --offline -j 4 > /tmp/mut/${id}_suite.log 2>&1; r3=$?
 nfail=$(grep -c "^test .* FAILED" /tmp/mut/${id}_suite.log)
 echo "== $id demo_on_clean_exit=$r1 demo_with_patch_exit=$r2 suite_with_patch_exit=$r3 suite_failed_tests=$nfail"
 if [ $r1 -eq 0 ] && [ $r2 -ne 0 ] && [ $r3 -eq 0 ]; then
